@@ -29,7 +29,23 @@ C15 == IF X.tf = "X" THEN X.raised            \* unknown time-format directive: 
        /\ (SavesStream(O) => X.stream_ok) /\ (JoinsEvents(O) => X.joined_ok) /\ (SavesRegions(O) => X.regions_ok)
        /\ X.extra_files = 0                                               \* nothing else is written
        /\ X.unparsed = 0
-Mon == TLCSet(i, IF C15 THEN 1 ELSE 2)
+\* X04: side effects of -C / -E / --debug-file / -D / -T / --save-image.  X.fx holds the projections made by the harness:
+\* ncommands / commands_ok (order, {file} substituted, wav = the detection), nplayed / echo_ok (concatenation of what the fake device was
+\* given = the detections in order), log (file) and elog (stderr) = <<who, id, line_ok>>, nplots / plot_ok, export by format in stream_ok / regions_ok
+WP == INSTANCE WorkersProps
+LogSeqOK(lg) == /\ \A k \in 1..Len(lg) : lg[k][3] = 1
+                /\ WP!LogOK([k \in 1..Len(lg) |-> <<lg[k][1], lg[k][2]>>], Len(X.dets), [w \in 1..3 |-> WP!Ids(Len(X.dets))], LogWriters(O))
+                /\ \A k \in 1..Len(lg) : lg[k][1] \in {0} \cup LogWriters(O)
+X04 == IF X.tf = "X" THEN X.raised ELSE
+       /\ X.exit = Exit(O) /\ ~X.raised
+       /\ IF RunsCommands(O) THEN X.fx.ncommands = Len(X.dets) /\ X.fx.commands_ok ELSE X.fx.ncommands = 0
+       /\ IF Echoes(O) THEN X.fx.echo_ok ELSE X.fx.nplayed = 0
+       /\ IF LogsToFile(O) THEN X.fx.logfile /\ LogSeqOK(X.fx.log) ELSE ~X.fx.logfile
+       /\ IF LogsToStderr(O) THEN LogSeqOK(X.fx.elog) ELSE Len(X.fx.elog) = 0
+       /\ IF Plots(O) THEN X.fx.nplots = 1 /\ X.fx.plot_ok ELSE X.fx.nplots = 0
+       /\ (SavesStream(O) => X.stream_ok) /\ (JoinsEvents(O) => X.joined_ok) /\ (SavesRegions(O) => X.regions_ok)
+       /\ X.extra_files = 0
+Mon == TLCSet(i, (IF C15 THEN 1 ELSE 2) + (IF X.hasfx /\ ~X04 THEN 2 ELSE 0))
 ASSUME \A t \in 1..Len(Runs) : TLCSet(t, 0)
 Post == \A t \in 1..Len(Runs) : PrintT(ToJson(<<"TRACE", t, TLCGet(t), 1>>))
 =============================================================================
